@@ -934,6 +934,24 @@ pub fn looks_builtin_or_grey(t: &str) -> bool {
 /// A statement the library would answer itself, behind a character that is neither part of it nor
 /// white space (a byte order mark, a zero-width space, a control character, ...): not that statement.
 pub fn gen_prefixed_builtin(g: &mut G<'_>) -> String {
+    if g.chance(1, 3) {
+        // ... or behind a comment, as drivers and tools send them (the text is still the shim's,
+        // verbatim, comment included)
+        let pre = *g.pick(&[
+            "/* mysql-connector-j-8.1.0 (Revision: 7b6f9a337afe6ccb41823df485bf848ca7952b09) */",
+            "/* mysql-connector-java-8.0.28 (Revision: 7ff2161da3899f379fb3171b6538b191b1c5c7e2) */",
+            "/* ApplicationName=DBeaver 23.1 - Main */ ",
+            "/*!40101 SET NAMES utf8 */;",
+            "/* */",
+            "/**/",
+            "/*+ MAX_EXECUTION_TIME(1000) */ ",
+            "-- ping\n",
+            "# tag\n",
+            "/* a */ /* b */",
+        ]);
+        let stmt = *g.pick(&["SELECT @@max_allowed_packet", "SELECT  @@session.auto_increment_increment AS auto_increment_increment", "select @@version_comment limit 1", "USE db", "use `db`;", "UPDATE t SET a = a + 1", "SELECT 1"]);
+        return format!("{}{}", pre, stmt);
+    }
     let pre = *g.pick(&["\u{feff}", "\u{200b}", "\u{feff}\u{feff}", "\u{0}", "\u{1}", "\u{7f}", "é", "(", "\\", "_", "1", "\u{2060}", "\u{fffd}"]);
     let stmt = *g.pick(&["SELECT @@max_allowed_packet", "select @@version_comment limit 1", "SELECT @@socket", "USE db", "use `db`;", "USE a", "SELECT 1"]);
     format!("{}{}", pre, stmt)
